@@ -228,6 +228,7 @@ func (s *Scorch) introduceSegment(next *segmentIntroduction) error {
 		}
 	}
 
+	verifPoint("intro.segment.beforeSwap")
 	newSnapshot.updateSize()
 	s.rootLock.Lock()
 	if next.persisted != nil {
@@ -255,6 +256,7 @@ func (s *Scorch) introduceSegment(next *segmentIntroduction) error {
 		s.unmarkIneligibleForRemoval(filename)
 	}
 
+	verifPoint("intro.segment.afterSwap")
 	close(next.applied)
 
 	return nil
@@ -325,6 +327,7 @@ func (s *Scorch) introducePersist(persist *persistIntroduction) {
 	atomic.StoreUint64(&s.stats.TotItemsToPersist, docsToPersistCount)
 	atomic.StoreUint64(&s.stats.TotMemorySegmentsAtRoot, memSegments)
 	atomic.StoreUint64(&s.stats.TotFileSegmentsAtRoot, fileSegments)
+	verifPoint("intro.persist.beforeSwap")
 	newIndexSnapshot.updateSize()
 	s.rootLock.Lock()
 	rootPrev := s.root
@@ -336,6 +339,7 @@ func (s *Scorch) introducePersist(persist *persistIntroduction) {
 		_ = rootPrev.DecRef()
 	}
 
+	verifPoint("intro.persist.afterSwap")
 	close(persist.applied)
 }
 
@@ -494,6 +498,7 @@ func (s *Scorch) introduceMerge(nextMerge *segmentMerge) {
 
 	newSnapshot.AddRef() // 1 ref for the nextMerge.notify response
 
+	verifPoint("intro.merge.beforeSwap")
 	newSnapshot.updateSize()
 	s.rootLock.Lock()
 	// swap in new index snapshot
@@ -515,6 +520,7 @@ func (s *Scorch) introduceMerge(nextMerge *segmentMerge) {
 		s.unmarkIneligibleForRemoval(filename)
 	}
 
+	verifPoint("intro.merge.afterSwap")
 	// notify requester that we incorporated this
 	nextMerge.notifyCh <- &mergeTaskIntroStatus{
 		indexSnapshot: newSnapshot,
